@@ -137,8 +137,8 @@ Proof. exact exit_kill_effects. Qed.
 
 (* (7) the deterministic driver used by the correspondence check only performs model steps:
    every scenario the harness runs is one of the label sequences quantified over above *)
-Theorem C12_exec_is_run : forall pk ops,
-  d_s (fst (exec pk ops)) = run (rev (d_ls (fst (exec pk ops)))) (init 0 pk).
+Theorem C12_exec_is_run : forall pk gt ops,
+  d_s (fst (exec pk gt ops)) = run (rev (d_ls (fst (exec pk gt ops)))) (init 0 pk).
 Proof. exact exec_is_run. Qed.
 
 (* (8) the executable oracle.  Its SAFETY clauses -- every handled timer message comes from an
@@ -146,14 +146,14 @@ Proof. exact exec_is_run. Qed.
    (computed from the scenario alone), is in the log exactly once and not after the target's exit
    -- accept every run of the model's driver, for every scenario and both kinds of target; and
    they are part of the oracle applied to the implementation *)
-Theorem C12_oracle_sound_safety : forall pk ops, check_C12_safety ops (observe pk ops) = true.
+Theorem C12_oracle_sound_safety : forall pk gt ops, check_C12_safety ops (observe pk gt ops) = true.
 Proof. exact oracle_sound_safety. Qed.
 
 Theorem C12_oracle_includes_safety : forall pk ops o,
   check_C12 pk ops o = true -> check_C12_safety ops o = true.
 Proof. exact oracle_includes_safety. Qed.
 
-(* OPEN: C12_oracle_sound : forall pk ops, check_C12 pk ops (observe pk ops) = true.
+(* OPEN: C12_oracle_sound : forall pk gt ops, check_C12 pk ops (observe pk gt ops) = true.
    GAP: the clauses outside check_C12_safety are not proved of all model runs:
    (i) "not later than the first instant the runtime ran at/after the k-th wheel deadline" and
    "nothing handled after an earlier abort" and "interval handle finished one period after the
@@ -199,38 +199,49 @@ Example ex_effs : effs (run ex_ls (init 0 false))
 Proof. split; vm_compute; reflexivity. Qed.
 (* a late schedule: the clock jumps over three deadlines, the ticks burst but none is early *)
 Example ex_burst :
-  o_log (observe false [OMk KInterval ms; OAdv (3 * ms + 5)]) =
+  o_log (observe false false [OMk KInterval ms; OAdv (3 * ms + 5)]) =
   [(0%nat, 1, 3000005); (0%nat, 2, 3000005); (0%nat, 3, 3000005)].
 Proof. vm_compute; reflexivity. Qed.
 (* abort at the boundary: the sleep has fired but the task has not run *)
 Example ex_abort_boundary :
-  observe false [OMk KAfter ms; OAdv ms; OAbort 0] = mkObs [] [HCancelled] None []
-  /\ observe false [OMk KAfter ms; OAdv ms; OSettle; OAbort 0] = mkObs [(0%nat, 1, 1000000)] [HOk] None [].
+  observe false false [OMk KAfter ms; OAdv ms; OAbort 0] = mkObs [] [HCancelled] None [] None
+  /\ observe false false [OMk KAfter ms; OAdv ms; OSettle; OAbort 0] = mkObs [(0%nat, 1, 1000000)] [HOk] None [] None.
 Proof. split; vm_compute; reflexivity. Qed.
 (* the target stops before expiry: Err through the handle; exit_after reason and time *)
 Example ex_dead :
-  observe false [OMk KAfter (3 * ms); OMk KExit 1500000; OAdv (2 * ms); OAdv ms]
-  = mkObs [] [HErr; HUnit] (Some (RExitAfter 1, 2000000)) [].
+  observe false false [OMk KAfter (3 * ms); OMk KExit 1500000; OAdv (2 * ms); OAdv ms]
+  = mkObs [] [HErr; HUnit] (Some (RExitAfter 1, 2000000)) [] (Some 2000000).
 Proof. vm_compute; reflexivity. Qed.
 (* interval task ends one period after the exit *)
 Example ex_ends :
-  o_probes (observe false [OMk KInterval ms; OAdv ms; OKill; OProbe; OAdv ms; OProbe])
+  o_probes (observe false false [OMk KInterval ms; OAdv ms; OKill; OProbe; OAdv ms; OProbe])
   = [(1000000, true, [false]); (2000000, true, [true])].
 Proof. vm_compute; reflexivity. Qed.
 (* a target parked in pre_start (Starting) is active and accepts: the interval keeps ticking, the
    messages are handled when pre_start returns *)
 Example ex_starting :
-  observe true [OMk KInterval ms; OMk KAfter ms; OAdv ms; OAdv ms; OProbe; OOpen]
+  observe true false [OMk KInterval ms; OMk KAfter ms; OAdv ms; OAdv ms; OProbe; OOpen]
   = mkObs [(0%nat, 1, 2000000); (1%nat, 1, 2000000); (0%nat, 2, 2000000)] [HPending; HOk] None
-          [(2000000, false, [false; true])].
+          [(2000000, false, [false; true])] None.
 Proof. vm_compute; reflexivity. Qed.
+(* the Stopping window (post_stop still running, ports open): a send_after that expires inside it
+   delivers nothing and reports Err; an interval ends; the exit is reported when post_stop returns;
+   the oracle rejects an Ok reported for an expiry inside the window *)
+Example ex_stopping_window :
+  observe false true [OMk KAfter (5 * ms); OMk KInterval (2 * ms); OAdv ms; OStop (RUser 3); OAdv (4 * ms);
+                      OProbe; OPOpen; OAdv ms; OProbe]
+  = mkObs [] [HErr; HUnit] (Some (RUser 3, 5000000))
+          [(5000000, false, [true; true]); (6000000, true, [true; true])] (Some 1000000)
+  /\ check_C12 false [OMk KAfter (5 * ms); OAdv ms; OStop RNone; OAdv (4 * ms); OPOpen]
+       (mkObs [] [HOk] (Some (RNone, 5000000)) [] (Some 1000000)) = false.
+Proof. split; vm_compute; reflexivity. Qed.
 Example ex_oracle :
   check_C12 false [OMk KInterval ms; OAdv ms; OKill; OProbe; OAdv ms; OProbe]
-            (observe false [OMk KInterval ms; OAdv ms; OKill; OProbe; OAdv ms; OProbe]) = true
-  /\ check_C12 false [OMk KAfter ms; OAdv ms] (mkObs [(0%nat, 1, 999999)] [HOk] None []) = false
-  /\ check_C12 false [OMk KAfter ms; OAdv ms] (mkObs [(0%nat, 1, 1000000); (0%nat, 1, 1000000)] [HOk] None []) = false
-  /\ check_C12 false [OMk KExit (2 * ms); OAdv ms] (mkObs [] [HUnit] (Some (RExitAfter 2, 1000000)) []) = false
-  /\ check_C12 false [OMk KExit (2 * ms); OAdv (2 * ms)] (mkObs [] [HUnit] (Some (RExitAfter 3, 2000000)) []) = false.
+            (observe false false [OMk KInterval ms; OAdv ms; OKill; OProbe; OAdv ms; OProbe]) = true
+  /\ check_C12 false [OMk KAfter ms; OAdv ms] (mkObs [(0%nat, 1, 999999)] [HOk] None [] None) = false
+  /\ check_C12 false [OMk KAfter ms; OAdv ms] (mkObs [(0%nat, 1, 1000000); (0%nat, 1, 1000000)] [HOk] None [] None) = false
+  /\ check_C12 false [OMk KExit (2 * ms); OAdv ms] (mkObs [] [HUnit] (Some (RExitAfter 2, 1000000)) [] (Some 1000000)) = false
+  /\ check_C12 false [OMk KExit (2 * ms); OAdv (2 * ms)] (mkObs [] [HUnit] (Some (RExitAfter 3, 2000000)) [] (Some 2000000)) = false.
 Proof. repeat split; vm_compute; reflexivity. Qed.
 
 Print Assumptions C12_after_once_not_early.
